@@ -1,20 +1,22 @@
 ---- MODULE MC_Criteria ----
 EXTENDS Criteria
-\* Cell pool (21 values).  Numbers count halves (2 = 1.0, 4 = 2.0, 5 = 2.5,
+\* Cell pool (22 values).  Numbers count halves (2 = 1.0, 4 = 2.0, 5 = 2.5,
 \* -3 = -1.5); texts are character sequences: abc ABC Abd b a.c a?c a*c xbz,
-\* the empty text, the numeric-looking text "2", ac; both logicals; a blank;
-\* two error values.
+\* the empty text, the numeric-looking text "2", ac, a text of two lines
+\* (a, line break, c); both logicals; a blank; two error values.
 MCCells == {
     Blank, Num(0), Num(2), Num(4), Num(5), Num(-3), Bool(1), Bool(0),
     Txt(<<"a","b","c">>), Txt(<<"A","B","C">>), Txt(<<"A","b","d">>),
     Txt(<<"b">>), Txt(<<"a",".","c">>), Txt(<<"a","?","c">>),
     Txt(<<"a","*","c">>), Txt(<<"x","b","z">>), Txt(<<>>), Txt(<<"2">>),
-    Txt(<<"a","c">>), Err("#N/A"), Err("#DIV/0!") }
+    Txt(<<"a","c">>), Txt(<<"a",LineBreak,"c">>), Err("#N/A"), Err("#DIV/0!") }
 
-\* Criteria pool (59): numbers with every operator, texts with every
+\* Criteria pool (63): numbers with every operator, texts with every
 \* operator (ordering only against purely alphabetic operands), a text holding
 \* a regular-expression metacharacter, wildcard patterns with and without
-\* "<>", the ~ escapes, and the three empty criteria "", "=", "<>".
+\* "<>", the ~ escapes, the three empty criteria "", "=", "<>", a text of two
+\* lines with "", "<>" and between wildcards, and the criterion read from a
+\* blank cell.
 MCCrits == {
     <<"", Num(4)>>, <<"=", Num(4)>>, <<"<>", Num(4)>>, <<"<", Num(4)>>,
     <<"<=", Num(4)>>, <<">", Num(4)>>, <<">=", Num(4)>>, <<"", Num(0)>>,
@@ -40,7 +42,9 @@ MCCrits == {
     <<"<>", Txt(<<"a","~","*","c">>)>>, <<"", Txt(<<"*","~","?","*">>)>>,
     <<"<>", Txt(<<"*","~","?","*">>)>>, <<"=", Txt(<<"a","*">>)>>,
     <<"=", Txt(<<"?">>)>>, <<"", Txt(<<>>)>>, <<"=", Txt(<<>>)>>,
-    <<"<>", Txt(<<>>)>> }
+    <<"<>", Txt(<<>>)>>, <<"", Txt(<<"a",LineBreak,"c">>)>>,
+    <<"<>", Txt(<<"a",LineBreak,"c">>)>>, <<"", Txt(<<"*",LineBreak,"*">>)>>,
+    <<"", Blank>> }
 
 \* second / third criterion (12)
 MCCrits2 == {
